@@ -214,6 +214,77 @@ def samRecordMany (vals : List Nat) (valueBits count : Nat) : List Nat :=
 def samDrain (vals : List Nat) : List (Nat × Nat) :=
   groupRuns ((vals.mergeSort samLe).filter fun b => !f64IsNaN b)
 
+/-! ## Observation capture: one `add_value` call
+
+`add_value` hands the value a `Capturer`; the value calls `metric(distribution, …)` once with any
+number of observations (one for the primitive types; several for distribution-like values, closed
+histograms, pre-aggregated batches), and the capturer loops over them. -/
+
+/-- `metrique_writer::Observation`, floats as bit patterns -/
+inductive Obs where
+  | unsigned (v : Nat)
+  | floating (bits : Nat)
+  | repeated (totalBits occ : Nat)
+  deriving Repr, DecidableEq
+
+/-- The two floating-point conversions of the capturer (`v as f64`, `total / occurrences as f64`).
+A parameter: the theorems hold whatever they return; the executable twin plugs in `Float`. -/
+structure CaptureOps where
+  ofU64 : Nat → Nat
+  mean : Nat → Nat → Nat
+
+/-- one iteration of `for obs in distribution { match obs { … } }`: what is handed to `record_many`;
+an empty repeat (`occurrences == 0`) is skipped — and only it. -/
+def captureStep (ops : CaptureOps) : Obs → Option (Nat × Nat)
+  | .unsigned v => some (ops.ofU64 v, 1)
+  | .floating b => some (b, 1)
+  | .repeated t n => if n > 0 then some (ops.mean t n, n) else none
+
+/-- everything one `add_value` call records -/
+def captureAll (ops : CaptureOps) (obs : List Obs) : List (Nat × Nat) := obs.filterMap (captureStep ops)
+
+/-- the capturer's loop into an exponential strategy: a fold of the single-observation step -/
+def addValue (ops : CaptureOps) (p : Params) (bs : List Nat) : List Obs → List Nat
+  | [] => bs
+  | o :: rest =>
+    addValue ops p (match captureStep ops o with
+      | some (v, n) => recordMany p bs v n
+      | none => bs) rest
+
+/-- a sequence of `add_value` calls -/
+def addValues (ops : CaptureOps) (p : Params) (bs : List Nat) : List (List Obs) → List Nat
+  | [] => bs
+  | call :: rest => addValues ops p (addValue ops p bs call) rest
+
+/-- the capturer's loop into the sort-and-merge strategy -/
+def samAddValue (ops : CaptureOps) (vals : List Nat) : List Obs → List Nat
+  | [] => vals
+  | o :: rest =>
+    samAddValue ops (match captureStep ops o with
+      | some (v, n) => samRecordMany vals v n
+      | none => vals) rest
+
+def samAddValues (ops : CaptureOps) (vals : List Nat) : List (List Obs) → List Nat
+  | [] => vals
+  | call :: rest => samAddValues ops (samAddValue ops vals call) rest
+
+/-- how many observations an `Observation` stands for -/
+def Obs.count : Obs → Nat
+  | .unsigned _ => 1
+  | .floating _ => 1
+  | .repeated _ n => n
+
+/-- NOT the code: the defective loop in which an empty repeat `return`s out of the loop instead of
+being skipped, losing every observation that follows it in the same call (kept for the decided
+witness in `Props/C11.lean` that the conservation theorem separates the two). -/
+def addValueEarlyReturn (ops : CaptureOps) (p : Params) (bs : List Nat) : List Obs → List Nat
+  | [] => bs
+  | .repeated _ 0 :: _ => bs
+  | o :: rest =>
+    addValueEarlyReturn ops p (match captureStep ops o with
+      | some (v, n) => recordMany p bs v n
+      | none => bs) rest
+
 /-! ## Executable twin with the floating-point operations (compared with the implementation) -/
 namespace Exec
 
@@ -227,20 +298,16 @@ inductive Src where
   | floating (bits : Nat)              -- f32/f64: `Observation::Floating(v)`
   | duration (secs nanos : Nat)        -- `Duration`: `Floating(as_secs_f64() * 1000.0)`
   | repeated (totalBits occ : Nat)     -- `Observation::Repeated`
+  | multi (obs : List Obs)             -- a value that writes several observations in one `metric()` call
   deriving Repr
 
-inductive Obs where
-  | unsigned (v : Nat)
-  | floating (bits : Nat)
-  | repeated (totalBits occ : Nat)
-  deriving Repr
-
-/-- `Value::write` of the source type -/
-def Src.observe : Src → Obs
-  | .unsigned v => .unsigned v
-  | .floating b => .floating b
-  | .duration s n => .floating (bitsOf ((u64f s + u64f n / 1000000000.0) * 1000.0))
-  | .repeated t o => .repeated t o
+/-- `Value::write` of the source type: the observations of its one `metric()` call -/
+def Src.observe : Src → List Obs
+  | .unsigned v => [.unsigned v]
+  | .floating b => [.floating b]
+  | .duration s n => [.floating (bitsOf ((u64f s + u64f n / 1000000000.0) * 1000.0))]
+  | .repeated t o => [.repeated t o]
+  | .multi obs => obs
 
 /-- `Convert::convert` with `RATIO = ratio` (`none`: no `WithUnit` wrapper). -/
 def convert (ratio : Option Nat) (o : Obs) : Obs :=
@@ -254,12 +321,17 @@ def convert (ratio : Option Nat) (o : Obs) : Obs :=
     | .floating b => .floating (bitsOf (ofBits b * r))
     | .repeated t n => .repeated (bitsOf (ofBits t * r)) n
 
+/-- the capturer's conversions with the machine's binary64 operations -/
+def floatOps : CaptureOps :=
+  ⟨fun v => bitsOf (u64f v), fun t n => bitsOf (ofBits t / u64f n)⟩
+
 /-- the `Capturer` in `add_value` / the loop of `AggregateValue<HistogramClosed<T>>::insert`:
 what is passed to `record_many`, if anything -/
-def capture : Obs → Option (Nat × Nat)
-  | .unsigned v => some (bitsOf (u64f v), 1)
-  | .floating b => some (b, 1)
-  | .repeated t n => if n > 0 then some (bitsOf (ofBits t / u64f n), n) else none
+def capture : Obs → Option (Nat × Nat) := captureStep floatOps
+
+/-- everything a sequence of `add_value` calls records: per call, per observation (in order) -/
+def captured (ratio : Option Nat) (srcs : List Src) : List (Nat × Nat) :=
+  srcs.flatMap fun v => captureAll floatOps (v.observe.map (convert ratio))
 
 /-- `Observation::Repeated { total: scale_down(midpoint as f64) * count as f64, occurrences: count }` -/
 def expObs (scalePow : Nat) (mc : Nat × Nat) : Nat × Nat :=
